@@ -44,3 +44,21 @@ def fill(P):
     P("C12", "exploration",
       "bounded run-time contract check of the ballot-editing utilities (pushforward of the weight view)",
       "Bounded only at present.", "", "DESIGN.md 4-C12")
+
+    B = "bounded run-time contract check of the real code (B-SSE), labelled bounded, never counted as proved"
+    P("C07", "exploration", "bounded exhaustive evaluation of the solid-coalition axiom on real STV counts (lemma over contracts not finished)",
+      "The axiom is evaluated from the input profile only, for every coalition, on small-scope exhaustive profiles.", "Lemma L07 over the C02/C03 contracts is not finished: no proof part.", "DESIGN.md 4-C07")
+    P("C08", "exploration", "bounded relational execution (renaming / reordering / splitting / candidate order / PYTHONHASHSEED subprocesses)",
+      "Relational check over representation variants and hash seeds on small-scope exhaustive profiles.", "", "DESIGN.md 4-C08")
+    P("C09", "exploration", "bounded query-history check on finished elections of every rule", "Replay vs records, index rules and purity over 12-query histories.", "", "DESIGN.md 4-C09")
+    P("C10", "other", "contract-based deductive verification of the tie-straddle kernel (elect_cands_from_set_ranking records a tiebreak iff a set straddles the last seat) + bounded multi-seed audit of recorded tiebreaks",
+      "The kernel's contract is proved; whole elections are audited under 4 seeds (bounded).", "tiebreak_set's own body is out of the verifier's reach (sorted/dict-of-lists): bounded only.", "DESIGN.md 4-C10")
+    P("C13", "other", "contract-based deductive verification of the alias constructors (delegation with the documented arguments, class defines nothing else) + bounded differential check against separately built components",
+      "IRV/SNTV/SequentialRCV constructor delegation and class-frame obligations are discharged; TopTwo/Alaska composition is a bounded differential check.", "", "DESIGN.md 4-C13")
+    P("C14", "exploration", "bounded structural audit of every generator on a parameter grid", B, "apportionment package assumed to be Huntington-Hill (A-APP).", "DESIGN.md 4-C14")
+    P("C15", "exploration", "bounded entry-by-entry comparison of the probability tables with the defining formulas in exact rationals", B, "floats compared up to 1e-9 relative.", "DESIGN.md 4-C15")
+    P("C16", "exploration", "bounded call-site audit of the RNG draws, exact Metropolis acceptance probes, scripted cohesion sampler, spatial rankings recomputed",
+      B + "; mixing of finite MCMC runs and Dirichlet-driven constructors are not decidable (not covered)", "numpy/random primitives' laws assumed (A-LIB).", "DESIGN.md 4-C16")
+    P("C17", "exploration", "bounded exact-law execution (choice-tree exploration of the real step with scripted RNG primitives)", B, "primitives' laws assumed (A-LIB).", "DESIGN.md 4-C17")
+    P("C18", "exploration", "bounded check of the loaders on generated files (no contract within reach: the property is about pandas/csv behaviour)", B, "", "DESIGN.md 4-C18")
+    P("C19", "exploration", "bounded comparison of lp_dist with the p-norm definition and the metric axioms on sampled triples; ballot graph vs definition for n<=5", B, "Lean lemma L19 not yet wired in.", "DESIGN.md 4-C19")
